@@ -519,6 +519,47 @@ func checkWriterShapes(c *Ctx, r *Run, impls []writerImpl) {
 			}
 			return segVariable, types.ExprString(e)
 		}
+		// hand-encoded length prefixes: binary.<order>.PutUintNN(buf[:], uintNN(len(y))) followed by w.Write(buf[:])
+		type putLen struct {
+			pos   token.Pos
+			lenOf string
+		}
+		putLens := map[string][]putLen{}
+		ast.Inspect(fd.Body, func(n ast.Node) bool {
+			call, ok := n.(*ast.CallExpr)
+			if !ok || len(call.Args) != 2 {
+				return true
+			}
+			sel, ok := call.Fun.(*ast.SelectorExpr)
+			if !ok || !strings.HasPrefix(sel.Sel.Name, "PutUint") {
+				return true
+			}
+			if o, ok := info.Uses[sel.Sel].(*types.Func); !ok || o.Pkg() == nil || o.Pkg().Path() != "encoding/binary" {
+				return true
+			}
+			buf := baseIdent(call.Args[0])
+			lo := ""
+			if ce, ok := call.Args[1].(*ast.CallExpr); ok && len(ce.Args) == 1 {
+				if inner, ok := ce.Args[0].(*ast.CallExpr); ok {
+					if id, ok := inner.Fun.(*ast.Ident); ok && id.Name == "len" {
+						lo = baseIdent(inner.Args[0])
+					}
+				}
+			}
+			if buf != "" {
+				putLens[buf] = append(putLens[buf], putLen{call.Pos(), lo})
+			}
+			return true
+		})
+		lenEncodedIn := func(buf string, at token.Pos) string {
+			best, bestPos := "", token.NoPos
+			for _, pl := range putLens[buf] {
+				if pl.pos < at && pl.pos > bestPos {
+					best, bestPos = pl.lenOf, pl.pos
+				}
+			}
+			return best
+		}
 		var walk func(n ast.Node, inLoop bool)
 		handleCall := func(call *ast.CallExpr, inLoop bool) {
 			usesW := false
@@ -541,7 +582,14 @@ func checkWriterShapes(c *Ctx, r *Run, impls []writerImpl) {
 								}
 							}
 						}
-						segs = append(segs, seg{kind: k, inLoop: inLoop, what: what, pos: call.Pos(), base: b})
+						sg := seg{kind: k, inLoop: inLoop, what: what, pos: call.Pos(), base: b}
+						if k == segFixed {
+							if lo := lenEncodedIn(baseIdent(call.Args[0]), call.Pos()); lo != "" {
+								sg.lenOf = lo
+								sg.what += " holding len(" + lo + ")"
+							}
+						}
+						segs = append(segs, sg)
 						return
 					}
 					segs = append(segs, seg{kind: segUnknown, inLoop: inLoop, what: "w." + sel.Sel.Name, pos: call.Pos()})
@@ -570,6 +618,13 @@ func checkWriterShapes(c *Ctx, r *Run, impls []writerImpl) {
 						}
 					}
 					segs = append(segs, seg{kind: segUnknown, inLoop: inLoop, what: "binary.Write of " + typeStr(vt), pos: call.Pos()})
+					return
+				}
+			}
+			// io.WriteString(w, s): the bytes of s
+			if isSel && sel.Sel.Name == "WriteString" && len(call.Args) == 2 {
+				if o, ok := info.Uses[sel.Sel].(*types.Func); ok && o.Pkg() != nil && o.Pkg().Path() == "io" {
+					segs = append(segs, seg{kind: segVariable, inLoop: inLoop, what: "string " + types.ExprString(call.Args[1]), pos: call.Pos(), base: baseIdent(call.Args[1])})
 					return
 				}
 			}
